@@ -240,7 +240,9 @@ def _cells(arr):
     return [[float(x.real), float(x.imag)] for x in arr]
 
 
-CASE_TIME_LIMIT = 90.0      # seconds per real execution (soft: SIGALRM -> recorded as TimeoutError)
+# seconds per real execution (soft: SIGALRM -> recorded as TimeoutError); python execution of a case
+# takes milliseconds to a second, a compiled one is dominated by 1-10 s of JIT compilation
+CASE_TIME_LIMIT = {"numpy": 20.0, "nojit": 20.0, "jit": 90.0}
 CASE_HARD_LIMIT = 240.0     # watchdog: a worker stuck inside compiled code is terminated
 
 
@@ -249,7 +251,7 @@ class _Deadline:
     controller loop that never reaches t_end after a stepper returned a wrong time) is reported as a
     TimeoutError of that case instead of stalling the check."""
 
-    def __init__(self, soft=CASE_TIME_LIMIT, hard=CASE_HARD_LIMIT):
+    def __init__(self, soft, hard=CASE_HARD_LIMIT):
         self.soft, self.hard = soft, hard
 
     def __enter__(self):
@@ -281,7 +283,7 @@ class _Deadline:
 def exec_case(task):
     """run one case on the real code (with a time limit); returns a plain dict"""
     try:
-        with _Deadline():
+        with _Deadline(CASE_TIME_LIMIT.get(task["mode"], 90.0)):
             return _exec_case(task)
     except TimeoutError as e:
         return {"mode": task["mode"], "segments": [], "error": {"type": "TimeoutError", "msg": str(e), "segment": 0},
@@ -889,7 +891,8 @@ def monitor_fixed(ctx, case, mode, run, aux_runs, leg="monitor"):
             scale = max([abs(x) for x in ev] + [abs(complex(*u)) for u in c["u0"]] + [1e-300])
             if c["flavour"] == "quad":
                 scale = max(scale, _scale(c, []))
-            tol = 1e-12 * scale * (1 + sum(ss[: j + 1]) / 16)
+            nsteps = sum(ss) if c["via"] == "solve" else sum(ss[: j + 1])
+            tol = 1e-12 * scale * (1 + nsteps / 16)
             if c["flavour"] == "amp" and c["solver"] in ("implicit", "crank-nicolson") and its is None:
                 # iteration counts unknown (compiled run): converged value within the stopping criterion
                 a = complex(*c["a"])
@@ -898,10 +901,10 @@ def monitor_fixed(ctx, case, mode, run, aux_runs, leg="monitor"):
                 if abs(qq) >= 0.95:
                     continue
                 growth = max(1.0, abs(1 / (1 - z)) if c["solver"] == "implicit" else abs((1 + z / 2) / (1 - z / 2)))
-                tol += (abs(qq) / abs(1 - qq)) * c["maxerror"] * math.sqrt(len(c["u0"])) * sum(ss[: j + 1]) \
-                    * growth ** sum(ss[: j + 1]) * 1.001
+                tol += (abs(qq) / abs(1 - qq)) * c["maxerror"] * math.sqrt(len(c["u0"])) * nsteps \
+                    * growth ** nsteps * 1.001
             if c["flavour"] == "quad" and c["solver"] == "crank-nicolson" and its is None and c["alpha"] != 0:
-                tol += c["alpha"] / (1 - c["alpha"]) * c["maxerror"] * sum(ss[: j + 1]) * 1.001
+                tol += c["alpha"] / (1 - c["alpha"]) * c["maxerror"] * nsteps * 1.001
             dev = max(abs(x - y) for x, y in zip(ev, ov))
             if not dev <= tol:
                 fail({"call": j, "state": s["state"], "deviation": dev, "aux": tag},
@@ -1139,9 +1142,12 @@ def monitor_adaptive(ctx, case, mode, run, leg="monitor"):
             err = max(abs(complex(*x) - e) for x, e in zip(r["state"], exact))
             bound = r["steps"] * case["tol"]
             if not err <= bound * (1 + 1e-9) + 1e-13 * max(abs(complex(*u)) for u in case["u0"]) + 1e-300:
-                fail({"call": j, "global_error": err, "steps": r["steps"], "state": r["state"]},
+                key["symptom"] = "global-error-exceeds-steps-x-tolerance"
+                fail({"call": j, "global_error": err, "steps": r["steps"], "state": r["state"],
+                      "ratio_to_bound": err / bound if bound else None},
                      {"bound_steps_x_tol": bound, "exact": [[e.real, e.imag] for e in exact]},
                      f"adaptive {case['solver']}: global error exceeds steps*tolerance")
+                key.pop("symptom")
                 break
             ctx.hist("global-error/bound", "%.0e" % (err / bound) if bound > 0 and err > 0 else "0")
     return fails
@@ -1415,6 +1421,12 @@ def run(ctx):
     evaluate(ctx, tasks, runs, answers, index)
     ctx.disagreements.sort(key=lambda d: len(str(d["case"])))
     ctx.monitor_failures.sort(key=lambda d: len(str(d["case"])))
+    import collections
+    if ctx.monitor_failures:
+        ctx.extra["monitor_failure_kinds"] = dict(collections.Counter(m["what"] for m in ctx.monitor_failures))
+    if ctx.disagreements:
+        ctx.extra["disagreement_kinds"] = dict(collections.Counter(
+            f"{d['leg']}: {str(d['note'])[:60]}" for d in ctx.disagreements))
     if answers is None:
         raise BrokenCheck("model driver: " + ctx.extra.get("model_driver", "failed"))
 
@@ -1542,7 +1554,8 @@ def monitor_estimate(ctx, case, mode, leg="monitor"):
         z = case["a"][0] * h
         ctx.monitor_fail(leg, rec, {"second_step": h2, "error_rel_read_back": err_rel, "error": err_rel * case["tol"]},
                          {"error_rel": 0.3, "error": 0.3 * case["tol"], "z": z},
-                         f"adaptive {case['solver']}: error estimate is not |high order - low order| on u'=a*u", key=key)
+                         f"adaptive {case['solver']}: step after an accepted step is not dt*0.9*error_rel**-0.2 with "
+                         f"error = |high order - low order| on u'=a*u", key=key)
         return 1
     return 0
 
@@ -1580,12 +1593,38 @@ def search(ctx, broken):
     targeted monitors on the real solvers, then the monitors of the disagreeing cases"""
     from harness.common.isolated import run_one
 
-    res = run_one("harness.c06", "targeted_worker", None, env={"NUMBA_DISABLE_JIT": "1", "PYTHONWARNINGS": "ignore"})
+    env = {"NUMBA_DISABLE_JIT": "1", "PYTHONWARNINGS": "ignore", "NUMBA_NUM_THREADS": "1"}
+    res = run_one("harness.c06", "targeted_worker", None, env=env)
     if isinstance(res, str):
         ctx.note("targeted search failed: " + res[-300:])
-        return []
+        res = {"failures": [], "evals": 0}
     ctx.monitor_evals += res["evals"]
-    return sorted(res["failures"], key=lambda d: len(str(d["case"])))
+    found = list(res["failures"])
+    if not found:
+        # fresh structured sample of the same generators, monitors only (python execution)
+        from harness.common.context import Ctx
+        from harness.common.isolated import run_many
+
+        c2 = Ctx(PID, ctx.tier, ctx.seed, ctx.workdir)
+        c2.rng = ctx.sub_rng("search")
+        tasks = []
+        for i in range(ctx.budget(2000, 6000)):
+            tasks.append({"case": gen_fixed(c2.rng, FIXED_SOLVERS[i % 5], c2.hist), "modes": ["numpy", "nojit"]})
+        for i in range(ctx.budget(400, 1200)):
+            tasks.append({"case": gen_adaptive(c2.rng, ADAPTIVE_SOLVERS[i % 3], c2.hist), "modes": ["numpy", "nojit"]})
+        for i, t in enumerate(tasks):
+            t["id"] = i
+            t["aux"] = aux_cases(t["case"])
+        rs = run_many("harness.c06", "worker", _interleave(tasks, 12), env, 12,
+                      os.path.join(ctx.workdir, "pool_search"))
+        runs = {}
+        for r in rs:
+            if not isinstance(r, str):
+                runs.setdefault(r["id"], {}).update(r["runs"])
+        evaluate(c2, tasks, runs, None, {})
+        ctx.monitor_evals += c2.monitor_evals
+        found = c2.monitor_failures
+    return sorted(found, key=lambda d: len(str(d["case"])))
 
 
 def replay(ctx, rep):
